@@ -284,7 +284,7 @@ def make_connection():
     return p, clock
 
 
-def scenario(kinds, order, dup=True, loss_at=None, closing_at=None, reason_kind=0):
+def scenario(kinds, order, dup=True, loss_at=None, closing_at=None, reason_kind=0, foreign=False):
     """kinds[i] in R (return) E (error with text) e (empty error) T (expiry); order = completion order"""
     from twisted.python import failure
     from txdbus import error, message
@@ -305,7 +305,26 @@ def scenario(kinds, order, dup=True, loss_at=None, closing_at=None, reason_kind=
         serials.append(s)
     done = set()
 
+    def foreign_reply(i, kind, le, unknown_first):
+        # the same replies as another implementation writes them: big-endian, and / or with a header field of a code this library does
+        # not know (receivers must ignore those) placed before the fields that matter
+        from . import wire_ref as W
+        from . import message_harness as MH
+        known = ([(5, serials[i]), (6, ':1.42'), (8, 's')] if kind == 'R' else [(4, 'org.e.Err%d' % i), (5, serials[i])] + ([(8, 's')] if kind == 'E' else []))
+        arr = [[c, W.Variant(MH.FIELD_SIG[c], v)] for c, v in known]
+        if unknown_first:
+            arr = [[77, W.Variant('s', 'ignore me')]] + arr + [[99, W.Variant('au', [1, 2])]]
+        body = W.encode('s', ['v%d' % i if kind == 'R' else 'm%d' % i], 0, le) if kind in 'RE' else b''
+        head = W.encode(MH.HDR, [ord('l') if le else ord('B'), 2 if kind == 'R' else 3, 0, 1, len(body), 4000 + i, arr], 0, le)
+
+        class Raw:
+            rawMessage = head + W.pad(len(head), 8) + body
+        return Raw
+
     def reply(i, kind):
+        variant = (i + 2 * len(kinds) + sum(map(ord, kinds))) % 4
+        if foreign and variant != 0:
+            return foreign_reply(i, kind, le=(variant == 2), unknown_first=(variant >= 2))
         if kind == 'R':
             m = message.MethodReturnMessage(serials[i], signature='s', body=['v%d' % i])
         elif kind == 'E':
@@ -492,6 +511,10 @@ def bounded(tier, seed):
                 f = scenario(kinds, order)
                 if f:
                     return n, f, {'kinds': ''.join(kinds), 'order': list(order)}
+                n += 1
+                f = scenario(kinds, order, foreign=True)
+                if f:
+                    return n, f, {'kinds': ''.join(kinds), 'order': list(order), 'replies': 'as written by another implementation: big-endian and / or with unknown header fields'}
                 for la in range(N):
                     for rk in range(4):
                         n += 1
@@ -510,7 +533,7 @@ def bounded(tier, seed):
         rnd.shuffle(order)
         n += 1
         la = rnd.choice([None] + list(range(N)))
-        f = scenario(kinds, order, loss_at=la, reason_kind=rnd.randrange(4))
+        f = scenario(kinds, order, loss_at=la, reason_kind=rnd.randrange(4), foreign=rnd.random() < 0.5)
         if f:
             return n, f, {'kinds': ''.join(kinds), 'order': order, 'connection_lost_before_step': la}
     n += 1
